@@ -226,5 +226,16 @@ fn must_quote_test() {
 
 /// Write a value as YAML document, without explicit document start/end markers.
 pub fn write(w: &mut dyn io::Write, pp: &write::Pp, level: usize, v: &Val) -> io::Result<()> {
-    write_yaml!(w, pp, level, v, write)
+    // block style needs indentation by at least one space (YAML forbids tabs for it);
+    // with any other indentation, fall back to flow style
+    let spaces = |i: &String| !i.is_empty() && i.bytes().all(|c| c == b' ');
+    if pp.indent.as_ref().is_some_and(|i| !spaces(i)) {
+        let indent = None;
+        return write_rec(w, &write::Pp { indent, ..pp.clone() }, level, v);
+    }
+    write_rec(w, pp, level, v)
+}
+
+fn write_rec(w: &mut dyn io::Write, pp: &write::Pp, level: usize, v: &Val) -> io::Result<()> {
+    write_yaml!(w, pp, level, v, write_rec)
 }
